@@ -78,6 +78,8 @@ theorem readRd_bytes (r : Rd) (h : RdOk r) : readRd r.bytes = some r := by
 def AddrCanon (addr : Bytes) (mask : Nat) : Prop :=
   addr.take (ceil8 mask) ++ List.replicate (addr.length - ceil8 mask) 0 = addr
 
+instance (addr : Bytes) (mask : Nat) : Decidable (AddrCanon addr mask) := by unfold AddrCanon; exact inferInstance
+
 /-- VPN-IPv4 / VPN-IPv6 NLRI (RFC 4364 §4.3.4, RFC 4659 §3.2): decode ∘ encode = id, any label stack depth the
     one-octet length can carry -/
 theorem vpn_nlri_roundtrip (ls : List Nat) (rd : Rd) (addr : Bytes) (mask : Nat) (wd : Bool)
@@ -100,7 +102,7 @@ theorem vpn_nlri_roundtrip (ls : List Nat) (rd : Rd) (addr : Bytes) (mask : Nat)
       rw [List.drop_append_of_le_length (by rw [rd_bytes_length]; exact Nat.le_refl 8)]
       rw [List.drop_of_length_le (by rw [rd_bytes_length]; exact Nat.le_refl 8)]; rfl
     simp only [vpnDecode, List.singleton_append, List.cons_append, List.nil_append, List.append_assoc]
-    have hL : ¬ (24 * ls.length + 64 + mask :: (stackBytes ls ++ (rd.bytes ++ List.take (ceil8 mask) addr))).length < 12 := by
+    have hL : ¬ ((24 * ls.length + 64 + mask) :: (stackBytes ls ++ (rd.bytes ++ List.take (ceil8 mask) addr))).length < 12 := by
       simp [stackBytes_length, rd_bytes_length]; omega
     rw [if_neg hL, if_neg (show ¬ 24 * ls.length + 64 + mask < 88 by omega), hrl]
     simp only
@@ -128,7 +130,7 @@ theorem labeled_nlri_roundtrip (ls : List Nat) (addr : Bytes) (mask : Nat)
   · have hrl := readLabels_stack ls (addr.take (ceil8 mask)) hne hl
       (stackBytes ls ++ List.take (ceil8 mask) addr).length (by simp [stackBytes_length]; omega)
     simp only [labDecode, List.singleton_append, List.cons_append, List.nil_append, List.append_assoc, if_true]
-    have hL : ¬ (24 * ls.length + mask :: (stackBytes ls ++ List.take (ceil8 mask) addr)).length < 4 := by
+    have hL : ¬ ((24 * ls.length + mask) :: (stackBytes ls ++ List.take (ceil8 mask) addr)).length < 4 := by
       simp [stackBytes_length]; omega
     rw [if_neg hL, if_neg (show ¬ 24 * ls.length + mask < 24 by omega), hrl]
     simp only
@@ -151,7 +153,7 @@ theorem labeled_withdraw_roundtrip (ls : List Nat) (addr : Bytes) (mask : Nat) (
   · simp [List.length_take, Nat.min_eq_left hce]; omega
   · have hmod : (24 + mask) % 256 = 24 + mask := Nat.mod_eq_of_lt (by omega)
     simp only [labDecode, hmod, List.cons_append, List.nil_append, Bool.false_eq_true, if_false]
-    have hL : ¬ (24 + mask :: 128 :: 0 :: 0 :: List.take (ceil8 mask) addr).length < 4 := by simp
+    have hL : ¬ ((24 + mask) :: 128 :: 0 :: 0 :: List.take (ceil8 mask) addr).length < 4 := by simp
     rw [if_neg hL, if_neg (show ¬ 24 + mask < 24 by omega)]
     simp only [List.drop_succ_cons, List.drop_zero, List.length_singleton, Nat.mul_one]
     rw [if_neg (show ¬ 24 + mask < 24 by omega)]
